@@ -194,6 +194,21 @@ impl<M: Math> TransformedPoint<M> {
                         // Make the step sizes comparable
                         (ndim as f64).sqrt() * epsilon / 2.,
                     );
+                #[cfg(nuts_rs_verif)]
+                if crate::verif::tracing() && ndim <= 8 {
+                    let (g, p0, p1) = (
+                        math.box_array(&self.transformed_gradient),
+                        math.box_array(&self.velocity),
+                        math.box_array(&out.velocity),
+                    );
+                    let dke = out.kinetic_energy - self.kinetic_energy;
+                    crate::verif::emit("esh", || {
+                        crate::verif::json!({"ev": "esh", "half": 1, "g": crate::verif::bits_vec(&g),
+                            "p0": crate::verif::bits_vec(&p0), "p1": crate::verif::bits_vec(&p1),
+                            "step": crate::verif::bits((ndim as f64).sqrt() * epsilon / 2.),
+                            "dke": crate::verif::bits(dke), "ke0": crate::verif::bits(self.kinetic_energy)})
+                    });
+                }
             }
         }
     }
@@ -247,12 +262,28 @@ impl<M: Math> TransformedPoint<M> {
             }
             KineticEnergyKind::Microcanonical => {
                 let ndim = math.dim();
+                #[cfg(nuts_rs_verif)]
+                let verif_before = (math.box_array(&self.velocity), self.kinetic_energy);
                 self.kinetic_energy = self.kinetic_energy
                     + math.esh_momentum_update(
                         &self.transformed_gradient,
                         &mut self.velocity,
                         (ndim as f64).sqrt() * epsilon / 2.,
                     );
+                #[cfg(nuts_rs_verif)]
+                if crate::verif::tracing() && ndim <= 8 {
+                    let (g, p1) = (
+                        math.box_array(&self.transformed_gradient),
+                        math.box_array(&self.velocity),
+                    );
+                    let dke = self.kinetic_energy - verif_before.1;
+                    crate::verif::emit("esh", || {
+                        crate::verif::json!({"ev": "esh", "half": 2, "g": crate::verif::bits_vec(&g),
+                            "p0": crate::verif::bits_vec(&verif_before.0), "p1": crate::verif::bits_vec(&p1),
+                            "step": crate::verif::bits((ndim as f64).sqrt() * epsilon / 2.),
+                            "dke": crate::verif::bits(dke), "ke0": crate::verif::bits(verif_before.1)})
+                    });
+                }
             }
         }
     }
